@@ -354,12 +354,10 @@ def _apply_inverse_beamsplitters(
 def _get_angles(matrix_element_to_eliminate, other_matrix_element, connector):
     np = connector.np
 
-    if np.isclose(matrix_element_to_eliminate, 0.0):
-        return np.pi / 2, 0.0
-
-    r = other_matrix_element / matrix_element_to_eliminate
-    theta = np.arctan(np.abs(r))
-    phi = np.angle(r)
+    theta = np.arctan2(
+        np.abs(other_matrix_element), np.abs(matrix_element_to_eliminate)
+    )
+    phi = np.angle(other_matrix_element) - np.angle(matrix_element_to_eliminate)
 
     return theta, phi
 
